@@ -1522,6 +1522,30 @@ def rule_priority_writers(rep, crate):
         rep.viol(rid, 'priority:never-set', 'Definition::named_attr does not set the explicit priority', '')
 
 
+def rule_leaf_writers(rep, crate):
+    rid = rep.rule('M-C13c', 'who may write: the fields of a Leaf (pattern, priority, kind, callback, span) are set by the builder methods of leaf::Leaf and nowhere else in logos-codegen: once generate has built a leaf from a definition, its callback and its variant kind reach the generator unchanged (no later pass re-labels a callback as a skip or drops it)', floor=1)
+    n = 0
+    for name, fn in sorted(crate.fns.items()):
+        if re.match(r'^leaf::Leaf::|^<leaf::Leaf as ', name):
+            n += 1
+            continue
+        for bi, si, st in fn.stmts():
+            if bi not in fn.live_blocks():
+                continue
+            for pl, kind in ((st['lhs'], 'store'), (st['rhs'].get('place') if st['rhs']['rv'] in ('ref', 'rawptr') and (st['rhs'].get('mut') or st['rhs']['rv'] == 'rawptr') else None, '&mut')):
+                if pl is None:
+                    continue
+                fl = fields_of(pl)
+                if not fl or fl[-1] not in ('pattern', 'priority', 'kind', 'callback', 'span'):
+                    continue
+                if not re.search(r'(^|[ &(<])leaf::Leaf(\b|$)', str(fn.locals[pl['local']])):
+                    continue
+                rep.viol(rid, 'leaf:writer:%s:%s:%s' % (short(name), fl[-1], kind), '%s performs a %s of Leaf::%s outside the builder methods of leaf::Leaf' % (name, kind, fl[-1]), loc(fn, st['line']))
+    rep.inst(rid, 'leaf-builders', detail=n)
+    if not n:
+        rep.anchor(rid, 'builder methods of leaf::Leaf', False)
+
+
 def rule_ignore_case_writers(rep, crate):
     rid = rep.rule('M-C10d', 'who may write: IgnoreFlags::ignore_case is set to true by IgnoreFlags::parse_ident (on the "case" edge) and nowhere else in logos-codegen; no other function stores into it, borrows it mutably or builds an IgnoreFlags value except Default (so a parsed ignore(case) reaches Pattern::compile unchanged)', floor=1)
     from mirlib import stores_to_field, mut_uses_of_field
